@@ -7,7 +7,7 @@ From Coq Require Import List Arith NArith ZArith Bool String.
 From Coq.Strings Require Import Byte.
 From Peppi Require Import Base.Bytes Base.Outcome Base.Stream Layout.Syntax Gen.Funs Gen.Tables Layout.Sem Layout.Rows Layout.Shapes
   Layout.RowsTheory Model.Ubjson Model.Start Model.Parse Model.Reader Model.Writer Model.Recorder
-  Proofs.TableFacts Proofs.ReadProof Proofs.WriteProof Proofs.Corollaries Proofs.Examples.
+  Gen.WriterSizes Proofs.TableFacts Proofs.ReadProof Proofs.WriteProof Proofs.Corollaries Proofs.WriterLayout Proofs.Examples.
 Import ListNotations.
 
 (* reader half, for EVERY well-formed replay: any version up to the maximum, any occupied ports, any frame
@@ -46,6 +46,11 @@ Proof. exact write_row_id_frames. Qed.
 Theorem C01_size_fn : forall v E, In E ["Pre"; "Post"; "Start"; "End"; "Item"]%string -> size_fn v E = row_size v E.
 Proof. exact size_fn_row_size_frames. Qed.
 
+(* the writer's payload-size table (which events, in which order, under which version gates, of which sizes) is the one
+   regenerated from src/io/slippi/ser.rs payload_sizes on this run (Gen/WriterSizes.v), including the u16 conversions *)
+Theorem C01_payload_sizes_from_source : forall g, payload_sizes g = payload_sizes_of_tbl payload_sizes_src_tbl g.
+Proof. exact payload_sizes_from_source. Qed.
+
 (* non-vacuity: concrete well-formed replays in each framing regime (rollback, absent characters, items, gecko
    blocks, doubled / missing Game End, metadata / none) *)
 Theorem C01_nonvacuous :
@@ -60,4 +65,5 @@ Print Assumptions C01_roundtrip.
 Print Assumptions C01_tables_same_shape.
 Print Assumptions C01_write_row_identity.
 Print Assumptions C01_size_fn.
+Print Assumptions C01_payload_sizes_from_source.
 Print Assumptions C01_nonvacuous.
